@@ -5,6 +5,8 @@ package interp
 // interpreter values. The library itself is trusted (DESIGN.md section 5).
 
 import (
+	"strconv"
+	"encoding/json"
 	"strings"
 	"go/types"
 	"sort"
@@ -154,8 +156,18 @@ func init() {
 			*ptr = hostToValue(out)
 			return iface{}
 		}
-		i.path.abort("json5.Unmarshal into %v is not modelled", dst.t)
-		return nil
+		// any other target (a configuration struct): the real library decodes into a generic tree, which is then shaped
+		// by the target's Go type and `json` tags like the encoding/json model does
+		var out any
+		if err := json5.Unmarshal([]byte(data), &out); err != nil {
+			return i.newError(fr, err.Error())
+		}
+		v, err := jsonToTyped(elem, json5Numbers(out), load(elem, ptr))
+		if err != nil {
+			return i.newError(fr, err.Error())
+		}
+		store(elem, ptr, v)
+		return iface{}
 	}
 }
 
@@ -254,4 +266,23 @@ func init() {
 		var cell value = structure{parent, key, args[2]}
 		return iface{t: types.NewPointer(vt), v: &cell}
 	}
+}
+
+// json5Numbers rewrites the float64 numbers of a decoded tree as json.Number (what jsonToTyped expects).
+func json5Numbers(x any) any {
+	switch v := x.(type) {
+	case float64:
+		return json.Number(strconv.FormatFloat(v, 'f', -1, 64))
+	case []any:
+		for k, e := range v {
+			v[k] = json5Numbers(e)
+		}
+		return v
+	case map[string]any:
+		for k, e := range v {
+			v[k] = json5Numbers(e)
+		}
+		return v
+	}
+	return x
 }
